@@ -220,6 +220,27 @@ func (c *SpecCtx) eval(n *Node) SV {
 		return SV{T: e.unbox(t, app("i_val", x.T)), Sort: e.sortOf(t), Ty: t}
 	case "call":
 		return c.call(n)
+	case "mcall":
+		recv := c.eval(n.Args[0])
+		if recv.Ty == nil {
+			fail("spec: method call on untyped value")
+		}
+		var fn *ssa.Function
+		for _, t := range []types.Type{recv.Ty, types.NewPointer(recv.Ty)} {
+			ms := e.prog.MethodSets.MethodSet(t)
+			for i := 0; i < ms.Len(); i++ {
+				if ms.At(i).Obj().Name() == n.Name {
+					fn = e.prog.MethodValue(ms.At(i))
+				}
+			}
+			if fn != nil {
+				break
+			}
+		}
+		if fn == nil {
+			fail("spec: no method %s on %s", n.Name, recv.Ty)
+		}
+		return c.callFn(fn, n.Name, n.Args)
 	case "star":
 		fail("x[*] is only allowed in modifies clauses")
 	}
@@ -330,11 +351,9 @@ func (c *SpecCtx) index(x, k SV) SV {
 		switch t := x.Ty.Underlying().(type) {
 		case *types.Map:
 			md, mv := e.mapHeaps(t)
-			present := sel(sel(c.cur.H(md), x.T), k.T)
-			if c.inTrig {
-				return SV{T: sel(sel(c.cur.H(mv), x.T), k.T), Sort: e.sortOf(t.Elem()), Ty: t.Elem()}
-			}
-			return SV{T: ite(present, sel(sel(c.cur.H(mv), x.T), k.T), e.zero(t.Elem())), Sort: e.sortOf(t.Elem()), Ty: t.Elem()}
+			// specification-level lookup: the stored value (unspecified for absent keys; guard with "k in m")
+			_ = md
+			return SV{T: sel(sel(c.cur.H(mv), x.T), k.T), Sort: e.sortOf(t.Elem()), Ty: t.Elem()}
 		case *types.Slice:
 			h := e.arrHeap(t.Elem())
 			return SV{T: sel(sel(c.cur.H(h), app("s_arr", x.T)), app("+", app("s_off", x.T), k.T)), Sort: e.sortOf(t.Elem()), Ty: t.Elem()}
@@ -600,6 +619,17 @@ func (c *SpecCtx) call(n *Node) SV {
 		}
 		md, mv := e.mapHeaps(mt)
 		return SV{Content: &mapContent{dom: sel(c.cur.H(md), x.T), val: sel(c.cur.H(mv), x.T), ks: e.sortOf(mt.Key()), vs: e.sortOf(mt.Elem()), elemT: mt.Elem()}}
+	case "vals":
+		x := c.eval(n.Args[0])
+		mt, ok := x.Ty.Underlying().(*types.Map)
+		if !ok {
+			fail("spec: vals of non-map")
+		}
+		_, mv := e.mapHeaps(mt)
+		return SV{T: sel(c.cur.H(mv), x.T), Sort: "(Array " + e.sortOf(mt.Key()) + " " + e.sortOf(mt.Elem()) + ")"}
+	case "contentOf":
+		d, v := c.eval(n.Args[0]), c.eval(n.Args[1])
+		return SV{Content: &mapContent{dom: d.T, val: v.T, ks: arrayKeySort(d.Sort), vs: arrayValueSort(v.Sort)}}
 	case "seq":
 		x := c.eval(n.Args[0])
 		st, ok := x.Ty.Underlying().(*types.Slice)
@@ -675,6 +705,17 @@ func (c *SpecCtx) call(n *Node) SV {
 		r := a
 		r.T = ite(cnd.T, a.T, b.T)
 		return r
+	case "domHeap", "valHeap":
+		x := c.eval(n.Args[0])
+		mt, ok := x.Ty.Underlying().(*types.Map)
+		if !ok {
+			fail("spec: %s of non-map", n.Name)
+		}
+		md, mv := e.mapHeaps(mt)
+		if n.Name == "domHeap" {
+			return SV{T: c.cur.H(md), Sort: e.heapSort[md]}
+		}
+		return SV{T: c.cur.H(mv), Sort: e.heapSort[mv]}
 	case "heapEq":
 		// heapEq("F$core_Table$Data"): the named heap is unchanged since entry
 		h := n.Args[0].Name
@@ -784,12 +825,46 @@ func (e *Enc) declErrIs() {
 // pureCall executes a Go function of the program symbolically (no side effects allowed).
 func (c *SpecCtx) pureCall(n *Node) SV {
 	e := c.enc()
-	if c.inQ > 0 {
-		fail("spec: call to Go function %s inside a quantifier", n.Name)
-	}
 	fn := e.findFunc(c.pkg, n.Name)
 	if fn == nil {
 		fail("spec: unknown function %s", n.Name)
+	}
+	return c.callFn(fn, n.Name, n.Args)
+}
+
+func (c *SpecCtx) callFn(fn *ssa.Function, name string, nargs []*Node) SV {
+	e := c.enc()
+	n := &Node{Name: name, Args: nargs}
+	if sp := c.f.specOf(fn); sp != nil && sp.Pure {
+		var args []Val
+		for i, a := range n.Args {
+			sv := c.eval(a)
+			if sv.IsNil {
+				sv = c.nilOf(SV{Sort: e.sortOf(fn.Params[i].Type())})
+			}
+			args = append(args, Val{T: sv.T, LV: sv.LV})
+		}
+		pv := c.f.pureTerms(fn, args, c.cur)
+		rs := fn.Signature.Results()
+		var out []SV
+		for i := 0; i < rs.Len(); i++ {
+			t := rs.At(i).Type()
+			switch {
+			case pv[i].nilOnly:
+				out = append(out, SV{T: app("mk_iface", ite(pv[i].term, "0", "1"), "0"), Sort: "Iface", Ty: t})
+			case pv[i].term != "":
+				out = append(out, SV{T: pv[i].term, Sort: e.sortOf(t), Ty: t})
+			default:
+				fail("spec: result %d of pure function %s is a reference and cannot be used in specifications", i, n.Name)
+			}
+		}
+		if len(out) == 1 {
+			return out[0]
+		}
+		return SV{Tup: out}
+	}
+	if c.inQ > 0 {
+		fail("spec: call to Go function %s inside a quantifier", n.Name)
 	}
 	var args []Val
 	for i, a := range n.Args {
